@@ -48,6 +48,20 @@ FIXTURES = [
     '2000-01-04 custom "y" "s" FALSE;c\r\n'
     '2000-01-06 note Assets:A "n" #t;c\r\n'
     'plugin "p" "cfg";c\r\n',
+    # falsy values in optional slots: zero numbers, empty strings, FALSE, NULL - next to absent siblings
+    'pushmeta zz: 0\n'
+    'pushmeta nn: NULL\n'
+    '2000-01-03 * "" ""\n'
+    '  rate: 0\n'
+    '  none: NULL\n'
+    '  flag: FALSE\n'
+    '  Assets:A  0\n'
+    '  Assets:B  0.00 USD @ 0\n'
+    '  Assets:C  1 USD {0 # 5 USD} @@ 0.00\n'
+    '  Assets:D  5-5 USD {0.00 USD}\n'
+    '    zero: 0.0\n'
+    '2000-01-02 balance Assets:A 0 ~ 0 USD\n'
+    '2000-01-04 custom "" 0 FALSE\n',
 ]
 
 
